@@ -104,7 +104,7 @@ def run(tier):
     rng = random.Random(vlib.seed())
     quick = tier == "quick"
     scen = []
-    for i in range(2500 if quick else 30000):
+    for i in range(2500 if quick else 100000):
         nparts = [1, 1, 2, 3][i % 4]
         scen.append(mk(rng, interleave=(i % 8 >= 4), nparts=nparts))
     seqfam.run_scenarios(res, scen, "TraceCep", tag="cep")
